@@ -33,6 +33,20 @@ def run(ctx):
              '(equal, same tree, no shared node or child list) and rebuilt from str/bool leaves; distinct by (logic, i, j)' % n)
     driver.run_cases(ctx, 'transitivity', 'vf.rtc.lang_rtc', 'check_triples_case', trip, chunk=1,
                      rule='2000 sampled triples per logic biased towards equal members')
+    rew = []
+    for logic, pool in ps.items():
+        by_root = {}
+        for t in pool:
+            if t[0] not in ('ap', 'true', 'false'):
+                by_root.setdefault(t[0], []).append(t)
+        pairs = []
+        for root, ts in sorted(by_root.items()):
+            for _ in range(60):
+                pairs.append((rng.choice(ts), rng.choice(ts)))
+        rew.append((logic, pairs))
+    driver.run_cases(ctx, 'rewrap', 'vf.rtc.lang_rtc', 'check_rewrap_case', rew, chunk=1,
+                     rule='60 sampled pairs per logic and root operator: a formula that was hashed and used as a key, then given the operands of the '
+                          'other through the public wrap_subformulas, is ==, hashes like and is one key with the formula built from those operands')
     driver.run_cases(ctx, 'bool-vs-bool', 'vf.rtc.lang_rtc', 'check_bool_eq_case', ['PL', 'CTL', 'LTL', 'CTLS'],
                      rule='Bool(b) against Python bool in both directions, every logic')
     ctx.assumptions += ['"== iff same tree" is injectivity of printing: bounded here and in C09, never proved']
